@@ -1620,3 +1620,15 @@ package gkvlite
 //@   ensures [C09,C03] size-monotone: t.store.size >= old(t.store.size) && io.writes >= old(io.writes)
 //@   ensures [C09,C03] bytes-below-old-size-unchanged: t.store.file != nil ==> samePrefix(fbytes[t.store.file], old(fbytes[t.store.file]), old(t.store.size))
 //@   ensures [C04,C01] changes-no-contents: tvs == old(tvs) && ias == old(ias) && t.root == old(t.root) && rootNodeLoc.root == old(rootNodeLoc.root)
+
+//@ func (*Item).Copy
+//@   props C15 C01
+//@   requires i != nil
+//@   modifies new Item.Key, new Item.Val, new Item.Priority, new Item.Transient
+//@   ensures [C01] shallow-copy: result != nil && fresh(result) && result.Key == i.Key && result.Val == i.Val && result.Priority == i.Priority && result.Transient == i.Transient
+
+//@ func (*Collection).AllocStats
+//@   props C05 C18
+//@   from: C05 lock discipline: the statistics are read under all three allocator locks, which are released again
+//@   requires t != nil && locks == emptyLocks()
+//@   modifies cell.Int, cell.Bool
